@@ -189,6 +189,47 @@ func NewWorld(cfg Config) (*World, error) {
 		a.DevReward = g.rew
 		w.Nodes[sh].Store.Accts[string(g.addr)] = a
 	}
+	if cfg.PreHistory {
+		// pre-history (written with the oracle's reference encoder): for each SFT/NFT token a creator
+		// that holds the create role (plus the other roles of the kind), a counter near a byte
+		// boundary and one old piece (nonce 1) it still holds
+		counters := []uint64{254, 255, 256, 510, 511, 65534, 65535, 1<<32 - 2}
+		for i, t := range u.Tokens {
+			if t.Kind == KindFungible || len(u.Users) == 0 || r.Intn(3) == 0 {
+				continue
+			}
+			creator := u.Users[(i*3+int(cfg.CfgSeed&7))%len(u.Users)]
+			if r.Intn(3) == 0 && len(u.Contracts) > 0 {
+				creator = u.Contracts[r.Intn(len(u.Contracts))]
+			}
+			sh := ShardOf(creator, cfg.NumShards)
+			acc, ok := w.Nodes[sh].Store.Accts[string(creator)]
+			if !ok {
+				acc = spec.NewAcct()
+				w.Nodes[sh].Store.Accts[string(creator)] = acc
+			}
+			c0 := counters[r.Intn(len(counters))]
+			roles := &spec.Roles{}
+			held := map[string]bool{}
+			for _, role := range RolesForKind(t.Kind) {
+				roles.Roles = append(roles.Roles, []byte(role))
+				held[role] = true
+			}
+			acc.Storage[spec.RoleKey(t.ID)] = spec.EncodeRoles(roles)
+			acc.Storage[spec.CounterKey(t.ID)] = spec.NonceBytes(c0)
+			qty := big.NewInt(int64(1 + r.Intn(9)))
+			if t.Kind == KindNFT {
+				qty = big.NewInt(1)
+			}
+			old := &spec.Token{Type: 1, Value: qty, Meta: &spec.Meta{Nonce: 1, Name: []byte("old"), Creator: creator, Royalties: 5, Hash: []byte("h1"), Attributes: []byte("a"), URIs: [][]byte{[]byte("u")}}}
+			acc.Storage[spec.TokenKey(t.ID, 1)] = spec.EncodeToken(old)
+			w.Ghost.Supply[spec.TokenKey(t.ID, 1)] = new(big.Int).Set(qty)
+			w.Ghost.MaxIssued[string(t.ID)] = c0
+			t.Assigned, t.Creator = true, string(creator)
+			t.Roles[string(creator)] = held
+			w.Stats.Probes["pre-history-creator"]++
+		}
+	}
 	for _, d := range deployTrouble {
 		w.violate(spec.Violation{Props: spec.P("C12"), Clause: "deploy-roundtrip", Detail: d})
 	}
@@ -234,7 +275,7 @@ func (w *World) Apply(ev Event) bool {
 		}
 		w.logf("tx %d snd=%x rcv=%x %s gas=%d fault=%v", ev.N, m.Snd, m.Rcv, m.Data, m.Gas, ev.Fault)
 		w.checkBuilder(ev.Tx)
-		if len(w.Found) > 0 && w.StopAtFirst {
+		if w.Stop() {
 			break
 		}
 		w.Run(m, ev.Fault)
@@ -294,6 +335,34 @@ func (w *World) Apply(ev Event) bool {
 		w.Stats.Faults["node-restart"]++
 		w.logf("restart shard=%d", ev.Shard)
 		w.CheckRegistry(w.Nodes[ev.Shard])
+	case "upgrade":
+		// a contract upgrade changes its code metadata: the payability oracle's answer for that
+		// address changes from now on (on every shard: one table)
+		addr := unhx(ev.ID)
+		sh := ShardOf(addr, w.Cfg.NumShards)
+		if len(addr) != 32 || !spec.IsContract(addr) || int(sh) >= len(w.Nodes) {
+			return false
+		}
+		st := int(ev.Epoch) % 3
+		if w.Nodes[0].Pay.StateOf(addr) == Payable && st != Payable {
+			// world assumption (contracts that send cross-shard by direct call are payable when their
+			// refund arrives): a payable contract is only downgraded while nothing it sent, and no
+			// refund to it, is in flight
+			for _, m := range w.Pool {
+				if bytes.Equal(m.Snd, addr) || bytes.Equal(m.Rcv, addr) {
+					return false
+				}
+			}
+		}
+		for _, nd := range w.Nodes {
+			nd.Pay.Table[string(addr)] = st
+		}
+		if acc, ok := w.Nodes[sh].Store.Accts[string(addr)]; ok {
+			md := vmcommon.CodeMetadata{Payable: st == Payable, Upgradeable: true}
+			acc.CodeMetadata = md.ToBytes()
+		}
+		w.Stats.Faults["payability-changed-by-upgrade"]++
+		w.logf("upgrade %x -> payability state %d", addr, st)
 	case "probe":
 		applied = w.Probe(ev)
 	default:
@@ -301,7 +370,7 @@ func (w *World) Apply(ev Event) bool {
 	}
 	found := len(w.Found)
 	_ = found
-	if applied && !(w.StopAtFirst && len(w.Found) > 0) {
+	if applied && !(w.Stop()) {
 		// (after a violation the event was abandoned half-way: the world is not judged further)
 		w.CheckInvariants()
 		if w.KeepLog {
@@ -384,7 +453,7 @@ func (w *World) Drain(maxSteps int) []Event {
 				break
 			}
 		}
-		if !progressed || (w.StopAtFirst && len(w.Found) > 0) {
+		if !progressed || (w.Stop()) {
 			break
 		}
 	}
